@@ -18,6 +18,19 @@ struct ClassicFam {
   static bool has_exact_region() { return false; }
   static bool exact_claim(const SK&, double) { return false; }
   static SK roundtrip(const SK& s) { return s; }
+  // serialize + deserialize through a stream image or a byte image
+#if defined(C08_ITEM_SELFMOVE)
+  static SK roundtrip_image(const SK& s, bool) { return s; }
+#else
+  static SK roundtrip_image(const SK& s, bool bytes) {
+    if (bytes) { auto b = s.serialize(); return SK::deserialize(b.data(), b.size()); }
+    std::stringstream ss(std::ios::in | std::ios::out | std::ios::binary);
+    s.serialize(ss);
+    return SK::deserialize(ss);
+  }
+#endif
+  static std::string published_error_text(const SK& s) { return "eps=" + str(s.get_normalized_rank_error(false)) + " eps_pmf=" + str(s.get_normalized_rank_error(true)); }
+  static bool within_published(const SK& s, double est, double tr) { return std::fabs(est - tr) <= s.get_normalized_rank_error(false); }
   // equal k inside an exhaustive scenario: a merge of different k draws its stride offset from
   // random_utils::rand, which is not a coin and is covered by the sampled part
   static void gen_cfgs(Rng& r, int nsk, std::vector<int>& cfg) {
@@ -112,7 +125,7 @@ static std::vector<c08::Cell> cells(bool T) {
   if (VARIANT) { std::vector<c08::Cell> w; for (auto c : v) if (c.n == 10000) { c.trials = T ? 400 : 60; w.push_back(c); } return w; }
   return v;
 }
-uint64_t num_cases(bool thorough) { return static_cast<uint64_t>(thorough ? NEXH_T : NEXH_Q) + cells(thorough).size() + micros(thorough).size(); }
+uint64_t num_cases(bool thorough) { return static_cast<uint64_t>(thorough ? NEXH_T : NEXH_Q) + cells(thorough).size() + micros(thorough).size() + (VARIANT ? 0 : 2); }
 
 void run_case(uint64_t idx, Rng& r) {
   const bool T = G().thorough();
@@ -135,7 +148,9 @@ void run_case(uint64_t idx, Rng& r) {
     const auto cs = cells(T);
     try {
       if (idx - nexh < cs.size()) c08::sampled_cell_eps<ClassicFam>(cs[idx - nexh], r);
-      else micro_downsample_cell(micros(T)[idx - nexh - cs.size()], r);
+      else if (idx - nexh - cs.size() < micros(T).size()) micro_downsample_cell(micros(T)[idx - nexh - cs.size()], r);
+      else if (idx - nexh - cs.size() - micros(T).size() == 0) c08::doubling_case<ClassicFam>(128, 4000, 34, T ? 6 : 2, r);
+      else c08::doubling_case<ClassicFam>(16, 1000, 36, T ? 6 : 2, r);
     } catch (const std::exception& e) { checked(); fail(FN() + "|sampled|exception-in-valid-usage", G().cur_desc + " what=" + e.what()); }
   }
 }
